@@ -369,6 +369,11 @@ def fam_wrappers(v):
         ("poisson", dict(), "poisson", []),
         ("gauss-approx-error", dict(error=0.4), "gauss_approximation", [dict(err_val=0.4)]),
         ("gauss-approx-rel", dict(error_rel=0.05), "gauss_approximation", [dict(err_val=0.05, relative=True, reference="model")]),
+        ("gauss-approx-rel-data", dict(error_rel=0.05, errors_rel_to_model=False), "gauss_approximation", [dict(err_val=0.05, relative=True)]),
+        ("gauss-approx-cor", dict(error_cor=0.3), "gauss_approximation", [dict(err_val=0.3, correlation=1.0)]),
+        ("gauss-approx-cor-rel", dict(error_cor_rel=0.04), "gauss_approximation", [dict(err_val=0.04, correlation=1.0, relative=True, reference="model")]),
+        ("gauss-approx-forced", dict(gauss_approximation=True), "gauss_approximation", []),
+        ("poisson-forced", dict(error=0.4, gauss_approximation=False), "poisson", [dict(err_val=0.4)]),
     ):
 
         def A(wkw=wkw):
